@@ -62,8 +62,24 @@ RefineB == /\ phase = "B" /\ it + start + 1 <= Len(script)
            /\ \E ord \in Orders : CellsOf(ord) = script[it + start + 1] /\ Refine(ord)
            /\ UNCHANGED mcvars
 
+(* the actions of RunGrid.Step under their own names, so that the coverage report of TLC shows which of them occurred *)
+MBeginProcess   == BeginProcess /\ UNCHANGED mcvars
+MEvalSerial     == EvalSerial /\ UNCHANGED mcvars
+MEndSerial      == EndSerial /\ UNCHANGED mcvars
+MComplete       == (\E t \in 1..Len(sel) : Complete(t)) /\ UNCHANGED mcvars
+MWaitFull       == (\E R \in SUBSET done : WaitReturn(R) /\ Cardinality(R) = NumReturns) /\ UNCHANGED mcvars
+MWaitTimeout    == (\E R \in SUBSET done : WaitReturn(R) /\ Cardinality(R) < NumReturns) /\ UNCHANGED mcvars
+MCollect        == Collect /\ UNCHANGED mcvars
+MEndCollect     == EndCollect /\ UNCHANGED mcvars
+MAppendPickle   == AppendPickle /\ UNCHANGED mcvars
+MUpdateFirst    == resNone /\ UpdateIntegral /\ UNCHANGED mcvars
+MUpdateIncr     == ~resNone /\ UpdateIntegral /\ UNCHANGED mcvars
+MSaveData       == SaveData /\ UNCHANGED mcvars
+MReturn         == Return /\ UNCHANGED mcvars
+
 MCNext == \/ StartA \/ RefineA \/ EndA \/ StartB \/ RestartB \/ RefineB
-          \/ (Step /\ UNCHANGED mcvars)
+          \/ MBeginProcess \/ MEvalSerial \/ MEndSerial \/ MComplete \/ MWaitFull \/ MWaitTimeout \/ MCollect
+          \/ MEndCollect \/ MAppendPickle \/ MUpdateFirst \/ MUpdateIncr \/ MSaveData \/ MReturn
 MCSpec == MCInit /\ [][MCNext]_allvars
 
 mcview == <<view, mcvars>>
@@ -74,5 +90,7 @@ RestartEquivalence ==
    phase = "B" =>
       /\ \A g \in DOMAIN saved : g \in DOMAIN ref /\ saved[g] = ref[g]
       /\ (pc = "idle" /\ returned # {}) => returned = ref[start + it]
-(* the restarted calculation reaches the last iteration (non-vacuity aid: reported through coverage of RestartB) *)
+(* reachability probes (expected to be VIOLATED: TLC exhibits a state in which the situation occurs) *)
+NeverCleared   == \A i \in 1..Len(kl) : kl[i].st # "cleared"          \* "discarded" storage mode of C10
+NeverWentBack  == ~(act.name = "StartRestart" /\ start < Max(DOMAIN ffiles))
 =============================================================================
